@@ -75,6 +75,13 @@ impl Profile {
                 max_size: 4,
                 ..base
             },
+            // resizes that never shrink: to the current max_size or above it (C01: once max_size
+            // stands still the limit holds, however often resize() is called with it)
+            "grow" => Profile {
+                w_ops: [40, 24, 5, 16, 0, 5, 8],
+                max_size: 3,
+                ..base
+            },
             "close" => Profile {
                 w_ops: [40, 22, 5, 8, 10, 5, 8],
                 ..base
@@ -166,7 +173,15 @@ fn gen_spec(rng: &mut Rng, p: &Profile, w: &World) -> Option<Spec> {
             }
         }
         2 => Spec::Take(*rng.pick(&out)),
-        3 => Spec::Resize(rng.below(w.cfg.max + 3)),
+        3 => {
+            if p.name == "grow" {
+                // never below the current limit; mostly exactly the current limit
+                let cur = w.pool.verif_snapshot(|_, _| {}).slots.map(|x| x.1)?;
+                Spec::Resize(cur + if rng.chance(60) { 0 } else { 1 })
+            } else {
+                Spec::Resize(rng.below(w.cfg.max + 3))
+            }
+        }
         4 => Spec::Close,
         5 => {
             // a predicate script as long as the idle queue (sometimes shorter / longer)
